@@ -61,6 +61,26 @@ Proof.
     intros x Hx. cbn [In] in Hx. repeat (destruct Hx as [Hx|Hx]; [subst x; closed_le|]). destruct Hx.
 Qed.
 
+Lemma scmp_b2_blen :
+  blen (match m with
+        | SM_Unknown _ _ _ => put (byte_hi ScmpUnknownMessage_CHECKSUM_RNG) (zeros (hdr - byte_hi ScmpUnknownMessage_CHECKSUM_RNG))
+                                (fold_left (fun b f => w (fst f) (snd f) b) (scmp_hdr_fields m) (w ScmpMessage_TYPE_RNG ty (zeros n)))
+        | _ => fold_left (fun b f => w (fst f) (snd f) b) (scmp_hdr_fields m) (w ScmpMessage_TYPE_RNG ty (zeros n))
+        end) = n.
+Proof.
+  destruct scmp_hdr_facts as (Hn & H8 & Hf & Hu). destruct (zeros_ok n) as [_ Zlen].
+  change (fold_left (fun b f => w (fst f) (snd f) b) (scmp_hdr_fields m) (w ScmpMessage_TYPE_RNG ty (zeros n)))
+    with (apply_writes ((ScmpMessage_TYPE_RNG, ty) :: scmp_hdr_fields m) (zeros n)).
+  assert (L1 : blen (apply_writes ((ScmpMessage_TYPE_RNG, ty) :: scmp_hdr_fields m) (zeros n)) = n).
+  { rewrite apply_writes_blen; [exact Zlen|]. intros x [<-|Hx]; rewrite Zlen.
+    - cbn [fst]. change (byte_hi ScmpMessage_TYPE_RNG) with 1. (eapply N.le_trans; [|exact Hn]); (eapply N.le_trans; [|exact H8]); closed_le.
+    - eapply N.le_trans; [exact (Hf x Hx)|exact Hn]. }
+  destruct m; try exact L1.
+  destruct Hu as (Hu8 & _ & _). destruct (zeros_ok (hdr - byte_hi ScmpUnknownMessage_CHECKSUM_RNG)) as [_ Zl].
+  rewrite put_blen; [exact L1|]. rewrite Zl, L1, Hu8. change (byte_hi ScmpUnknownMessage_CHECKSUM_RNG) with 4.
+  eapply N.le_trans; [|exact Hn]. rewrite Hu8. closed_le.
+Qed.
+
 (** the encoded message: size, acceptance, field reads, tail *)
 Lemma scmp_final_facts :
   bytes_ok final = true /\ blen final = n
@@ -75,7 +95,7 @@ Proof.
   destruct (scmp_body_blen m hs (zeros n) Vm Zlen) as [Lb B4]. fold body in Lb. rewrite Zlen in Lb, B4.
   assert (Hc4 : byte_hi ScmpMessage_CHECKSUM_RNG <= blen body) by (rewrite Lb; change (byte_hi ScmpMessage_CHECKSUM_RNG) with 4; lia).
   destruct (lane_write_value body ScmpMessage_CHECKSUM_RNG c Okb Hc4) as (_ & _ & _ & _ & _ & Okf & Lf).
-  fold final in Okf, Lf. rewrite Lb in Lf.
+  change (lane_write body ScmpMessage_CHECKSUM_RNG c) with final in Okf, Lf. rewrite Lb in Lf.
   refine (conj Okf (conj Lf (conj _ _))).
   - (* field reads *)
     intros r v bits Hin Hdis Hsz Hv Hbits.
@@ -91,7 +111,8 @@ Proof.
       with (apply_writes ((ScmpMessage_TYPE_RNG, ty) :: scmp_hdr_fields m) (zeros n)).
     destruct (scmp_writes_disjoint m) as [Hd _]. fold ty in Hd.
     assert (Hhi : forall x, In x ((ScmpMessage_TYPE_RNG, ty) :: scmp_hdr_fields m) -> byte_hi (fst x) <= blen (zeros n)).
-    { intros x [<-|Hx]; [cbn [fst]; rewrite Zlen; change (byte_hi ScmpMessage_TYPE_RNG) with 1; lia|]. specialize (Hf x Hx). rewrite Zlen. lia. }
+    { intros x [<-|Hx]; [cbn [fst]; rewrite Zlen; change (byte_hi ScmpMessage_TYPE_RNG) with 1; (eapply N.le_trans; [|exact Hn]); (eapply N.le_trans; [|exact H8]); closed_le|].
+      specialize (Hf x Hx). rewrite Zlen. eapply N.le_trans; [exact Hf|exact Hn]. }
     destruct (apply_writes_spec _ (zeros n) Zok Hhi Hd) as (Ok1 & Len1 & Rd & _).
     pose proof (Rd (r, v) Hin) as R. cbn [fst snd] in R. rewrite N.mod_small in R by exact Hv.
     set (b1 := apply_writes ((ScmpMessage_TYPE_RNG, ty) :: scmp_hdr_fields m) (zeros n)) in *.
@@ -105,17 +126,16 @@ Proof.
         cbn [In scmp_hdr_fields] in Hin. destruct Hin as [E|[E|[E|[]]]]; inversion E; subst r; closed_le.
       - rewrite put_blen; [exact Len1|]. rewrite Zl, Len1, Hu8. change (byte_hi ScmpUnknownMessage_CHECKSUM_RNG) with 4. lia. }
     destruct (Rb2 _ eq_refl) as [R2 L2].
-    apply trunc_id' with (w := r_width r); [|exact Hbits].
-    destruct (scmp_fixed_size ty); [rewrite R2; exact Hv|].
-    rewrite put_read_below; [rewrite R2; exact Hv|exact Hr|rewrite L2; exact Hn].
+    assert (Tv : trunc bits v = v).
+    { apply trunc_id. eapply N.lt_le_trans; [exact Hv|]. apply N.pow_le_mono_r; [discriminate|exact Hbits]. }
+    destruct (scmp_fixed_size ty); [rewrite R2; exact Tv|].
+    rewrite put_read_below; [rewrite R2; exact Tv|exact Hr|rewrite L2; exact Hn].
   - (* tail *)
     destruct (scmp_fixed_size ty) eqn:Fx; [reflexivity|].
     unfold final, w. rewrite lane_write_sub_above by (first [exact Hc4|(change (byte_hi ScmpMessage_CHECKSUM_RNG) with 4; lia)]).
     unfold body, encode_scmp_body. fold ty hdr n. rewrite Fx.
     set (b2 := match m with SM_Unknown _ _ _ => _ | _ => _ end).
-    assert (L2 : blen b2 = n).
-    { pose proof Lb as Lb'. unfold body, encode_scmp_body in Lb'. fold ty hdr n in Lb'. rewrite Fx in Lb'. fold b2 in Lb'.
-      rewrite put_blen' in Lb'; [exact Lb'|]. unfold blen at 1. rewrite firstn_length. lia. }
+    assert (L2 : blen b2 = n) by (exact scmp_b2_blen).
     set (q := firstn (N.to_nat (n - hdr)) (scmp_quote m)).
     assert (Lq : blen q = n - hdr).
     { unfold q, blen. rewrite firstn_length.
@@ -126,6 +146,139 @@ Proof.
         - change (scmp_header_size SCMP_T_EchoReply) with 8. unfold ScmpEchoReply_HEADER_SIZE_BYTES. lia.
         - destruct Hu as (Hu8 & _ & _). unfold hdr, ty in Hu8. cbn [scmp_type_of] in Hu8. rewrite Hu8. unfold ScmpUnknownMessage_HEADER_SIZE_BYTES. lia. }
       unfold blen in *. lia. }
-    replace n with (hdr + blen q) at 2 by lia. apply put_sub_exact. rewrite L2, Lq. lia.
+    assert (En : hdr + blen q = n) by (rewrite Lq; clear - Hn; lia).
+    rewrite <- En. apply put_sub_exact. rewrite L2, <- En. apply N.le_refl.
 Qed.
 End Scmp.
+
+Ltac eval_closed_eqb :=
+  repeat match goal with
+  | |- context [N.eqb ?a ?b] =>
+    let v := eval vm_compute in (N.eqb a b) in
+    match v with true => change (N.eqb a b) with true | false => change (N.eqb a b) with false end
+  end.
+
+Lemma scmp_tail_eval ty (v : bytes) : scmp_header_size ty <= blen v ->
+  scmp_tail_range ty v = Ok (scmp_header_size ty, blen v).
+Proof.
+  intros H. unfold scmp_tail_range.
+  assert (E : byte_lo (scmp_header_size ty * 8, (blen v - scmp_header_size ty) * 8) = scmp_header_size ty
+              /\ byte_hi (scmp_header_size ty * 8, (blen v - scmp_header_size ty) * 8) = blen v).
+  { unfold byte_lo, byte_hi, r_end, r_start. cbn [fst snd]. split; lia. }
+  destruct E as [-> ->]. unfold index_range.
+  destruct ((scmp_header_size ty <=? blen v) && (blen v <=? blen v)) eqn:C; [reflexivity|].
+  apply Bool.andb_false_iff in C. destruct C as [C|C]; apply N.leb_gt in C; lia.
+Qed.
+
+Lemma canon_cut (q : bytes) hdr hs :
+  firstn (N.to_nat (scmp_error_size hdr (blen q) hs - hdr)) q = firstn (N.to_nat ((1232 - hs) - hdr)) q.
+Proof.
+  unfold scmp_error_size, SCMP_BUDGET, SCMP_ERROR_MAX_PACKET_SIZE.
+  replace (N.to_nat (hdr + N.min (blen q) (1232 - hs - hdr) - hdr)) with (Nat.min (length q) (N.to_nat (1232 - hs - hdr))) by (unfold blen; lia).
+  apply firstn_min_len.
+Qed.
+
+(** decode (encode m) = canon m; the encoded message is accepted with exactly its size *)
+Lemma scmp_roundtrip h m hs alh al : scmp_wf m = true -> payload_wire_valid (PL_Scmp m) = true ->
+  let final := encode_payload h (PL_Scmp m) hs alh al (zeros (scmp_size m hs)) in
+  required_size_scmp final = Ok (blen final) /\ blen final = scmp_size m hs
+  /\ decode_scmp final = Ok (PL_Scmp (canon_scmp m hs)).
+Proof.
+  intros W V final.
+  destruct (scmp_hdr_facts h m hs alh al W V) as (Hn & H8 & Hf & Hu).
+  destruct (scmp_final_facts h m hs alh al W V) as (Okf & Lf & RF & Tl).
+  rewrite <- (scmp_final_is h m hs alh al) in Okf, Lf, RF, Tl. fold final in Okf, Lf, RF, Tl.
+  set (ty := scmp_type_of m) in *. set (hdr := scmp_header_size ty) in *. set (n := scmp_size m hs) in *.
+  assert (Ty256 : ty < 256).
+  { unfold ty. destruct m; cbn [scmp_type_of]; try (vm_compute; reflexivity).
+    cbn [scmp_wf] in W. apply Bool.andb_true_iff in W. destruct W as [W _]. apply Bool.andb_true_iff in W. destruct W as [W _].
+    apply N.ltb_lt in W. exact W. }
+  assert (Rty : scmp_type final = Ok ty).
+  { unfold scmp_type. change ScmpUnknownMessage_TYPE_RNG with ScmpMessage_TYPE_RNG.
+    apply RF; [left; reflexivity|vm_compute; reflexivity|closed_le|change (2 ^ r_width ScmpMessage_TYPE_RNG) with 256; exact Ty256|closed_le]. }
+  assert (Etail : scmp_tail_range ty final = Ok (hdr, n)).
+  { rewrite scmp_tail_eval by (rewrite Lf; exact Hn). rewrite Lf. reflexivity. }
+  refine (conj _ (conj Lf _)).
+  - (* accepted *)
+    unfold required_size_scmp, required_size_scmp_msg at 1. rewrite Lf.
+    change (scmp_header_size 256) with 8. change (scmp_fixed_size 256) with false. cbn iota.
+    destruct (n <? 8) eqn:C; [apply N.ltb_lt in C; lia|].
+    rewrite get_unchecked_ok' by (rewrite Lf; split; lia). cbn [obind]. rewrite <- Lf at 1. rewrite sub_full.
+    fold (scmp_type final). rewrite Rty. cbn [obind].
+    unfold required_size_scmp_msg. rewrite Lf. fold hdr.
+    destruct (n <? hdr) eqn:C2; [apply N.ltb_lt in C2; lia|]. f_equal.
+    destruct (scmp_fixed_size ty) eqn:Fx; [|reflexivity].
+    unfold n, hdr, ty in *. destruct m; cbn [scmp_type_of scmp_size] in *; try (vm_compute in Fx; discriminate Fx); try reflexivity.
+    destruct Hu as (_ & Hu & _). cbn [scmp_type_of] in Hu. rewrite Hu in Fx. discriminate.
+  - (* decoded *)
+    unfold decode_scmp. rewrite Rty. cbn [obind]. rewrite Etail. cbn [obind fst snd].
+    unfold scmp_code. 
+    destruct m as [cd q|mtu q|cd ptr q|ia ifid q|ia ing eg q|id sq d|id sq d|id sq|id sq ia ifid|t cd d];
+      cbn [scmp_wf] in W; repeat (apply Bool.andb_true_iff in W; let X := fresh "W" in destruct W as [W X]);
+      repeat match goal with X : (_ <? _) = true |- _ => apply N.ltb_lt in X end;
+      unfold ty in *; cbn [scmp_type_of canon_scmp scmp_quote scmp_hdr_fields] in *.
+    all: try (eval_closed_eqb; cbn iota).
+    + (* destination unreachable *)
+      change ScmpUnknownMessage_CODE_RNG with ScmpDestinationUnreachable_CODE_RNG.
+      rewrite (RF ScmpDestinationUnreachable_CODE_RNG cd 8) by (first [cbn [In]; tauto|vm_compute; reflexivity|closed_le|(change (2 ^ r_width ScmpDestinationUnreachable_CODE_RNG) with 256; assumption)]).
+      cbn [obind]. rewrite Tl. change (scmp_fixed_size SCMP_T_DestinationUnreachable) with false. cbn iota.
+      unfold n, hdr. cbn [scmp_size scmp_type_of]. rewrite canon_cut. reflexivity.
+    + rewrite (RF ScmpPacketTooBig_MTU_RNG mtu 16) by (first [cbn [In]; tauto|vm_compute; reflexivity|closed_le|(change (2 ^ r_width ScmpPacketTooBig_MTU_RNG) with 65536; assumption)]).
+      cbn [obind]. rewrite Tl. change (scmp_fixed_size SCMP_T_PacketTooBig) with false. cbn iota.
+      unfold n, hdr. cbn [scmp_size scmp_type_of]. rewrite canon_cut. reflexivity.
+    + change ScmpUnknownMessage_CODE_RNG with ScmpParameterProblem_CODE_RNG.
+      rewrite (RF ScmpParameterProblem_CODE_RNG cd 8) by (first [cbn [In]; tauto|vm_compute; reflexivity|closed_le|(change (2 ^ r_width ScmpParameterProblem_CODE_RNG) with 256; assumption)]).
+      cbn [obind].
+      rewrite (RF ScmpParameterProblem_POINTER_RNG ptr 16) by (first [cbn [In]; tauto|vm_compute; reflexivity|closed_le|(change (2 ^ r_width ScmpParameterProblem_POINTER_RNG) with 65536; assumption)]).
+      cbn [obind]. rewrite Tl. change (scmp_fixed_size SCMP_T_ParameterProblem) with false. cbn iota.
+      unfold n, hdr. cbn [scmp_size scmp_type_of]. rewrite canon_cut. reflexivity.
+    + rewrite (RF ScmpExternalInterfaceDown_ISD_AS_RNG ia 64) by (first [cbn [In]; tauto|vm_compute; reflexivity|closed_le|(change (r_width ScmpExternalInterfaceDown_ISD_AS_RNG) with 64; assumption)]).
+      cbn [obind].
+      rewrite (RF ScmpExternalInterfaceDown_INTERFACE_ID_RNG ifid 64) by (first [cbn [In]; tauto|vm_compute; reflexivity|closed_le|(change (2 ^ r_width ScmpExternalInterfaceDown_INTERFACE_ID_RNG) with 18446744073709551616; lia)]).
+      cbn [obind]. rewrite Tl. change (scmp_fixed_size SCMP_T_ExternalInterfaceDown) with false. cbn iota.
+      rewrite (trunc_id 16 ifid) by (change (2 ^ 16) with 65536; assumption).
+      unfold n, hdr. cbn [scmp_size scmp_type_of]. rewrite canon_cut. reflexivity.
+    + rewrite (RF ScmpInternalConnectivityDown_ISD_AS_RNG ia 64) by (first [cbn [In]; tauto|vm_compute; reflexivity|closed_le|(change (r_width ScmpInternalConnectivityDown_ISD_AS_RNG) with 64; assumption)]).
+      cbn [obind].
+      rewrite (RF ScmpInternalConnectivityDown_INGRESS_INTERFACE_ID_RNG ing 64) by (first [cbn [In]; tauto|vm_compute; reflexivity|closed_le|(change (2 ^ r_width ScmpInternalConnectivityDown_INGRESS_INTERFACE_ID_RNG) with 18446744073709551616; lia)]).
+      cbn [obind].
+      rewrite (RF ScmpInternalConnectivityDown_EGRESS_INTERFACE_ID_RNG eg 64) by (first [cbn [In]; tauto|vm_compute; reflexivity|closed_le|(change (2 ^ r_width ScmpInternalConnectivityDown_EGRESS_INTERFACE_ID_RNG) with 18446744073709551616; lia)]).
+      cbn [obind]. rewrite Tl. change (scmp_fixed_size SCMP_T_InternalConnectivityDown) with false. cbn iota.
+      rewrite (trunc_id 16 ing), (trunc_id 16 eg) by (change (2 ^ 16) with 65536; assumption).
+      unfold n, hdr. cbn [scmp_size scmp_type_of]. rewrite canon_cut. reflexivity.
+    + rewrite (RF ScmpEchoRequest_IDENTIFIER_RNG id 16) by (first [cbn [In]; tauto|vm_compute; reflexivity|closed_le|(change (2 ^ r_width ScmpEchoRequest_IDENTIFIER_RNG) with 65536; assumption)]).
+      cbn [obind].
+      rewrite (RF ScmpEchoRequest_SEQUENCE_NUMBER_RNG sq 16) by (first [cbn [In]; tauto|vm_compute; reflexivity|closed_le|(change (2 ^ r_width ScmpEchoRequest_SEQUENCE_NUMBER_RNG) with 65536; assumption)]).
+      cbn [obind]. rewrite Tl. change (scmp_fixed_size SCMP_T_EchoRequest) with false. cbn iota.
+      unfold n, hdr. cbn [scmp_size scmp_type_of]. change (scmp_header_size SCMP_T_EchoRequest) with 8. unfold ScmpEchoRequest_HEADER_SIZE_BYTES.
+      replace (N.to_nat (blen d + 8 - 8)) with (length d) by (unfold blen; lia). rewrite firstn_all. reflexivity.
+    + rewrite (RF ScmpEchoReply_IDENTIFIER_RNG id 16) by (first [cbn [In]; tauto|vm_compute; reflexivity|closed_le|(change (2 ^ r_width ScmpEchoReply_IDENTIFIER_RNG) with 65536; assumption)]).
+      cbn [obind].
+      rewrite (RF ScmpEchoReply_SEQUENCE_NUMBER_RNG sq 16) by (first [cbn [In]; tauto|vm_compute; reflexivity|closed_le|(change (2 ^ r_width ScmpEchoReply_SEQUENCE_NUMBER_RNG) with 65536; assumption)]).
+      cbn [obind]. rewrite Tl. change (scmp_fixed_size SCMP_T_EchoReply) with false. cbn iota.
+      unfold n, hdr. cbn [scmp_size scmp_type_of]. change (scmp_header_size SCMP_T_EchoReply) with 8. unfold ScmpEchoReply_HEADER_SIZE_BYTES.
+      replace (N.to_nat (blen d + 8 - 8)) with (length d) by (unfold blen; lia). rewrite firstn_all. reflexivity.
+    + rewrite (RF ScmpTracerouteRequest_IDENTIFIER_RNG id 16) by (first [cbn [In]; tauto|vm_compute; reflexivity|closed_le|(change (2 ^ r_width ScmpTracerouteRequest_IDENTIFIER_RNG) with 65536; assumption)]).
+      cbn [obind].
+      rewrite (RF ScmpTracerouteRequest_SEQUENCE_NUMBER_RNG sq 16) by (first [cbn [In]; tauto|vm_compute; reflexivity|closed_le|(change (2 ^ r_width ScmpTracerouteRequest_SEQUENCE_NUMBER_RNG) with 65536; assumption)]).
+      reflexivity.
+    + rewrite (RF ScmpTracerouteReply_IDENTIFIER_RNG id 16) by (first [cbn [In]; tauto|vm_compute; reflexivity|closed_le|(change (2 ^ r_width ScmpTracerouteReply_IDENTIFIER_RNG) with 65536; assumption)]).
+      cbn [obind].
+      rewrite (RF ScmpTracerouteReply_SEQUENCE_NUMBER_RNG sq 16) by (first [cbn [In]; tauto|vm_compute; reflexivity|closed_le|(change (2 ^ r_width ScmpTracerouteReply_SEQUENCE_NUMBER_RNG) with 65536; assumption)]).
+      cbn [obind].
+      rewrite (RF ScmpTracerouteReply_ISD_AS_RNG ia 64) by (first [cbn [In]; tauto|vm_compute; reflexivity|closed_le|(change (r_width ScmpTracerouteReply_ISD_AS_RNG) with 64; assumption)]).
+      cbn [obind].
+      rewrite (RF ScmpTracerouteReply_INTERFACE_ID_RNG ifid 64) by (first [cbn [In]; tauto|vm_compute; reflexivity|closed_le|(change (2 ^ r_width ScmpTracerouteReply_INTERFACE_ID_RNG) with 18446744073709551616; lia)]).
+      cbn [obind]. rewrite (trunc_id 16 ifid) by (change (2 ^ 16) with 65536; assumption). reflexivity.
+    + (* unknown type *)
+      destruct Hu as (Hu8 & Hfx & Hk). cbn [scmp_type_of] in Hk, Hfx.
+      unfold scmp_is_known, scmp_type_known in Hk. cbn [existsb] in Hk.
+      repeat (apply Bool.orb_false_iff in Hk; let X := fresh "K" in destruct Hk as [X Hk]).
+      unfold SCMP_T_DestinationUnreachable, SCMP_T_PacketTooBig, SCMP_T_ParameterProblem, SCMP_T_ExternalInterfaceDown,
+        SCMP_T_InternalConnectivityDown, SCMP_T_EchoRequest, SCMP_T_EchoReply, SCMP_T_TracerouteRequest, SCMP_T_TracerouteReply.
+      rewrite K, K0, K1, K2, K3, K4, K5, K6, K7. cbn iota.
+      rewrite (RF ScmpUnknownMessage_CODE_RNG cd 8) by (first [cbn [In]; tauto|vm_compute; reflexivity|closed_le|(change (2 ^ r_width ScmpUnknownMessage_CODE_RNG) with 256; assumption)]).
+      cbn [obind]. rewrite Tl. rewrite Hfx.
+      unfold n, hdr. cbn [scmp_size scmp_type_of]. cbn [scmp_type_of] in Hu8. unfold hdr in Hu8. rewrite Hu8. unfold ScmpUnknownMessage_HEADER_SIZE_BYTES.
+      replace (N.to_nat (blen d + 8 - 8)) with (length d) by (unfold blen; lia). rewrite firstn_all. reflexivity.
+Qed.
